@@ -10,9 +10,6 @@ M = "crates/astria-core/src/sequencerblock/v1/mod.rs"
 V = "crates/astria-core/src/primitive/v1/mod.rs"
 
 PRELUDE = _vec + _map + r'''
-impl<T: Default + Copy> FromIterator<T> for Vec<T> { fn from_iter<I: IntoIterator<Item = T>>(it: I) -> Self { let mut v = Vec::new(); for x in it { v.push(x); } v } }
-impl<K: Copy + Default + Ord, V: Copy + Default> FromIterator<(K, V)> for IndexMap<K, V> { fn from_iter<I: IntoIterator<Item = (K, V)>>(it: I) -> Self { let mut m = IndexMap::new(); for (k, v) in it { m.insert(k, v); } m } }
-impl<K: Copy + Default + Ord, V: Copy + Default> IndexMap<K, V> { pub fn iter(&self) -> MapIter<'_, K, V> { MapIter { m: self, i: 0 } } }
 #[derive(Clone, Copy, Debug, PartialEq, Eq, PartialOrd, Ord, Default)] pub struct RollupId(pub [u8; 1]);
 impl AsRef<[u8]> for RollupId { fn as_ref(&self) -> &[u8] { &self.0 } }
 #[derive(Clone, Copy, Debug, PartialEq, Eq, Default)] pub struct Bytes(pub [u8; 2]);
@@ -101,8 +98,6 @@ impl TryFrom<&BlockHashBytes> for Hash { type Error = (); fn try_from(b: &BlockH
     pub upgrade_change_hashes: Vec<ChangeHash>, pub extended_commit_info_with_proof: Option<ExtendedCommitInfoWithProof> }
 #[derive(Debug)] pub struct IncorrectRollupIdLength;
 impl RollupId { pub fn try_from_raw(r: raw::RawRollupId) -> Result<RollupId, IncorrectRollupIdLength> { if r.bad { Err(IncorrectRollupIdLength) } else { Ok(RollupId([r.id])) } } }
-impl<K: Copy + Default + Ord, V: Copy + Default> IndexMap<K, V> { pub fn values(&self) -> std::slice::Iter<'_, V> { self.vs[..self.n].iter() } }
-impl<'a, T> IntoIterator for &'a Vec<T> { type Item = &'a T; type IntoIter = std::slice::Iter<'a, T>; fn into_iter(self) -> std::slice::Iter<'a, T> { self.items[..self.n].iter() } }
 #[derive(Clone, Copy, Debug, PartialEq, Eq)] pub struct FilteredSequencerBlock { pub block_hash: Hash, pub header: SequencerBlockHeader, pub rollup_transactions: IndexMap<RollupId, RollupTransactions>, pub rollup_transactions_proof: merkle::Proof,
     pub all_rollup_ids: Vec<RollupId>, pub rollup_ids_proof: merkle::Proof, pub upgrade_change_hashes: Vec<ChangeHash>, pub extended_commit_info_with_proof: Option<ExtendedCommitInfoWithProof> }
 #[derive(Debug)] pub enum FilteredSequencerBlockError { E }
